@@ -69,3 +69,84 @@ def purity_stats():
             'min_per_class': min((_EVALS.get(c, 0) for c in classes), default=0),
             'zero_classes': zero,
             'fired': {k: v[:5] for k, v in _FIRED.items()}}
+
+
+# ---------------------------------------------------------------- datastore frame conditions (C18)
+_DS_EVALS = {}
+_DS_FIRED = {}
+
+
+class FrameBroken(Exception):
+    pass
+
+
+def _cells(self):
+    try:
+        return dict(iter(self))
+    except Exception as e:  # noqa
+        return {'unreadable': type(e).__name__}
+
+
+def cells_before(self, address, values):
+    acc = False
+    try:
+        n = len(values) if isinstance(values, list) else (None if isinstance(values, dict) else 1)
+        acc = n is not None and n >= 1 and bool(self.validate(address, n))
+    except Exception:  # noqa
+        n = None
+    return (_cells(self), acc, n)
+
+
+def set_frame_condition(self, address, values, OLD):
+    name = type(self).__name__ + '.setValues'
+    before, accepted, n = OLD.cells
+    if not accepted:
+        return True
+    _DS_EVALS[name] = _DS_EVALS.get(name, 0) + 1
+    now = _cells(self)
+    vals = values if isinstance(values, list) else [values]
+    bad = None
+    if set(now) != set(before):
+        bad = 'extent changed: %d -> %d cells' % (len(before), len(now))
+    else:
+        for k in now:
+            if address <= k < address + n:
+                if now[k] != vals[k - address]:
+                    bad = 'cell %d holds %r after writing %r' % (k, now[k], vals[k - address])
+                    break
+            elif now[k] != before[k]:
+                bad = 'cell %d outside [%d,%d) changed %r -> %r' % (k, address, address + n, before[k], now[k])
+                break
+    if bad:
+        _DS_FIRED.setdefault(name, []).append('setValues(%d, %d values): %s' % (address, n, bad))
+    return True
+
+
+def get_length_condition(self, address, count, result):
+    name = type(self).__name__ + '.getValues'
+    try:
+        acc = count >= 1 and bool(self.validate(address, count))
+    except Exception:  # noqa
+        acc = False
+    if not acc:
+        return True
+    _DS_EVALS[name] = _DS_EVALS.get(name, 0) + 1
+    if len(result) != count:
+        _DS_FIRED.setdefault(name, []).append('getValues(%d,%d) returned %d values' % (address, count, len(result)))
+    return True
+
+
+def install_datastore():
+    from pymodbus.datastore.store import ModbusSequentialDataBlock, ModbusSparseDataBlock
+    for cls in (ModbusSequentialDataBlock, ModbusSparseDataBlock):
+        if (cls, 'ds') in _INSTALLED:
+            continue
+        cls.setValues = icontract.snapshot(cells_before, name='cells')(
+            icontract.ensure(set_frame_condition, error=FrameBroken)(cls.__dict__['setValues']))
+        cls.getValues = icontract.ensure(get_length_condition, error=FrameBroken)(cls.__dict__['getValues'])
+        _INSTALLED.add((cls, 'ds'))
+
+
+def datastore_stats():
+    return {'evaluations': dict(_DS_EVALS), 'evaluations_total': sum(_DS_EVALS.values()),
+            'fired': {k: v[:5] for k, v in _DS_FIRED.items()}}
